@@ -224,11 +224,15 @@ def render_graph(c):
         if attr == "unused":
             text += "char f4(char x) { return f3(x); }\n"
             src["f4"] = ["f3"]
-        if attr in ("isr", "isr_inl3"):
+        if attr in ("isr", "isr_inl3", "isr2"):
             text += "void interrupt isr() { a = f3(2); }\n"
             src["isr"] = ["f3"]
+        if attr == "isr2":
+            text += "char hb(char x) { return x; }\nvoid interrupt nmi() { b = hb(1); }\n"
+            src["hb"] = []
+            src["nmi"] = ["hb"]
         text += fdef("main")
-    roots = ["main"] + (["isr"] if attr in ("isr", "isr_inl3") else [])
+    roots = ["main"] + (["isr"] if attr in ("isr", "isr_inl3", "isr2") else []) + (["nmi"] if attr == "isr2" else [])
     return text, src, roots
 
 
@@ -238,20 +242,26 @@ def c12(tier):
     verdict = common.Verdict(pid)
     d = common.workdir("gen_c12")
     cfg = os.path.join(d, "GenGraph.cfg")
-    pos = '{"stmt", "ifcond", "arg", "loopbody", "ret"}' if tier == "quick" else '{"stmt", "ifcond", "whilecond", "arg", "loopbody", "ternary", "switchcase", "assign", "ret"}'
-    open(os.path.join(common.SPEC, "MCGenGraph.tla"), "w").write("---- MODULE MCGenGraph ----\nEXTENDS GenGraph\nMCPos == %s\n====\n" % pos)
-    open(cfg, "w").write("CONSTANT Positions <- MCPos\nINIT Init\nNEXT Next\nINVARIANT Emit\nCHECK_DEADLOCK FALSE\n")
-    sim = None if tier == "quick" else "num=200000"
-    res = common.run_tlc("MCGenGraph", cfg=cfg, name="gen_c12", tags={"CASE"}, workers=8, heap="8g", timeout=1500, simulate=sim,
-                         extra=(["-depth", "1", "-seed", str(common.seed())] if sim else None))
-    if not sim:
-        common.require_ok(res, "GenGraph")
+    possets = ['{"stmt", "ifcond", "arg", "loopbody", "ret"}']
+    if tier == "thorough":
+        possets.append('{"whilecond", "ternary", "switchcase", "assign", "stmt"}')
     seen, cases = set(), []
-    for (_, o) in res.lines:
-        k = json.dumps(o, sort_keys=True)
-        if k not in seen:
-            seen.add(k)
-            cases.append(o)
+    res = None
+    for pi, pos in enumerate(possets):
+        open(os.path.join(common.SPEC, "MCGenGraph.tla"), "w").write("---- MODULE MCGenGraph ----\nEXTENDS GenGraph\nMCPos == %s\n====\n" % pos)
+        open(cfg, "w").write("CONSTANT Positions <- MCPos\nINIT Init\nNEXT Next\nINVARIANT Emit\nCHECK_DEADLOCK FALSE\n")
+        r = common.run_tlc("MCGenGraph", cfg=cfg, name="gen_c12_%d" % pi, tags={"CASE"}, workers=8, heap="8g", timeout=1500)
+        common.require_ok(r, "GenGraph")
+        for (_, o) in r.lines:
+            k = json.dumps(o, sort_keys=True)
+            if k not in seen:
+                seen.add(k)
+                cases.append(o)
+        if res is None:
+            res = r
+        else:
+            res.distinct += r.distinct
+            res.generated += r.generated
     cases.sort(key=lambda o: json.dumps(o, sort_keys=True))
     total = len(cases)
     rnd = random.Random(common.seed())
@@ -439,20 +449,20 @@ def c16(tier):
         if st == "panic":
             # identified by source file and panic message (line numbers move with unrelated edits)
             pm = o.get("panic", "")
-            m = re.search(r"@ (.*):\d+$", pm)
-            site = m.group(1) if m else "?"
-            site = re.sub(r"^.*/(src/.+)$", r"\1", site)
-            site = re.sub(r"^.*/(pest[^/]*)/src/(.+)$", r"\1/\2", site)
-            msg = re.sub(r"\(\d+, \d+\)", "", pm.split(" @ ")[0])
+            parts = pm.split(" @ ")
+            msg = re.sub(r"\(\d+, \d+\)", "", parts[0])
             msg = re.sub(r"\d+", "N", msg)[:48].strip()
-            key = "panic:%s:%s" % (site, msg)
+            callers = parts[2].split(" < ")[:2] if len(parts) > 2 else ["?"]
+            callers = [re.sub(r"<impl [^>]*>::", "", c).split("::")[-1] for c in callers]
+            key = "panic:%s:%s" % (msg, "<".join(callers))
         elif st == "err":
             e = o["err"]
             key = "badloc:%s" % e.get("msg", "")[:40]
         else:
             key = st
-        if key in sites:
-            verdict.attribute(sites[key])
+        hit = [fid for k, fid in sites.items() if key == k or (k.endswith("*") and key.startswith(k[:-1]))]
+        if hit:
+            verdict.attribute(hit[0])
             continue
         nbad += 1
         if key in reported_sites and nbad > 200:
@@ -499,6 +509,8 @@ def det_programs(tier):
     progs.append('#define S "macro string"\nchar *q; void pr(char *s) { }\nvoid main() { pr(S); pr("lit"); pr(S); }\n')
     progs.append("void fn2(); void fn1() {fn2();}; void fn2() {}; void fn3() {}; void fn4() {}; void main() { fn1(); fn4();}\n")
     progs.append("char f3(char x); char f2(char x); char f1(char x);\nunsigned char a;\nvoid main() { a = f1(1); }\nchar f1(char x) { return f2(x); }\nchar f2(char x) { return f3(x); }\nchar f3(char x) { return x; }\nchar f4(char x) { return x; }\n")
+    progs.append("void f1(); void f1(); void f2(); void f3(); void f1() {} void f2() {} void f3() {} void main() { f1(); f2(); f3(); }\n")
+    progs.append("char g1(char x); char g1(char x); char g2(char y); unsigned char a;\nchar g2(char y) { return y; }\nchar g3(char z) { return z; }\nchar g1(char x) { return g2(x); }\nvoid main() { a = g1(1) + g3(2); }\n")
     progs.append("unsigned char a; void main() { a = 300; }\n")                      # a warning is printed
     progs.append("char *p; unsigned char a; void main() { a = *p; }\n")
     return progs
